@@ -182,6 +182,12 @@ impl PartitionStorage for FilePartitionStorage {
             .segments
             .sort_by(|a, b| a.start_offset.cmp(&b.start_offset));
 
+        if partition.segments.is_empty() {
+            // A partition always has a segment to append to; its files can be missing when the
+            // server stopped in the middle of a purge.
+            partition.add_persisted_segment(0).await?;
+        }
+
         let end_offsets = partition
             .segments
             .iter()
